@@ -89,6 +89,11 @@ CLAIMED['C17'] = dict(
    text="Over arbitrary HDF5 objects (model of h5py's visititems scan): non-HDF5 bytes and HDF5 files that are neither EMD 1.0 nor hold a group tagged as EMD 0.1 data are refused; every tagged data group at any depth is found; each data group becomes an Array with the group's name, the same data and, per axis, the dim vector, name and units of the corresponding 1-based dim dataset; one group gives a single Array, several give a root holding all of them (names pairwise distinct -- the same-name case is refuted by a witness = known finding). Correspondence + oracle on 300 generated 0.1 files (1-5 groups, depth 0-5, rank 1-4, 7 dtypes, malformed variants) and 150 non-EMD / junk files; sha256 unchanged by read.",
    note=TB + TREE + "Model coq/Model/Legacy.v. Data and dim vectors by token (first element) and length; the bare `except:` around the importer is modelled as refusal on any failure. Modelled not verified: h5py parsing of junk bytes (refusal is observed).",
    technique="Coq proof over arbitrary file objects (scan completeness by induction on paths; import spec) + vm_compute correspondence", ref="5 C17")
+
+CLAIMED['C16'] = dict(
+   text="Proved for the two codecs whose reader produces forms the writer must accept again: for every documented metadata value the first generation is again in a (generalised) documented domain -- numpy scalars inside sequences included -- which is closed under a generation and on which save is accepted and the read-back is kind-sensitively equal, hence any number of generations; for Array calibrations the loaded Array again satisfies the C14 invariant, so the second generation has identical shape/units/names/labels and elementwise equal dim vectors. Trees (full, node, branch, below-node reads and the Metadata returned for a childless root), PointLists/PointListArrays and legacy imports are pushed through 2-3 real generations and compared by the oracle (960 objects).",
+   note=TB + MDM + "PARTIAL: tree / PointList / legacy streams are oracle-only. Domain = the documented domain of C01-C04 and the legacy files of C17 (numpy uint64 scalars >= 2^63 given as metadata read back as Python ints that cannot be saved: outside the documented kinds).",
+   technique="Coq proof (closure of the documented domain under read o save, then the total codec theorem) + multi-generation oracle", ref="5 C16")
 PENDING = {}
 props = [json.loads(l) for l in open(os.path.join(V, 'properties.jsonl'))]
 checks, na = [], []
